@@ -81,6 +81,31 @@ def fold(v, which, pat, fmts, regex, match_case, count):
     return len(ms)
 
 
+def future_diff(v, w):
+    """One-step futures of two values with equal cells: apply / remove over every range, and closedness of every
+    slice.  Returns None or (operation, cells of v', cells of w')."""
+    from ..env import AnsiSetting
+    L = len(v)
+    for (s_, e_) in explore.ranges(L):
+        for top in (True, False):
+            a, b = v.copy(), w.copy()
+            a.apply_formatting(AnsiSetting('35'), s_, e_, top)
+            b.apply_formatting(AnsiSetting('35'), s_, e_, top)
+            ca, cb = model.alpha_codes(a)[1], model.alpha_codes(b)[1]
+            if not model.cells_equiv(ca, cb):
+                return ('apply_formatting(35, %d, %d, topmost=%r)' % (s_, e_, top), ca, cb)
+        a, b = v.copy(), w.copy()
+        a.remove_formatting(None, s_, e_)
+        b.remove_formatting(None, s_, e_)
+        ca, cb = model.alpha_codes(a)[1], model.alpha_codes(b)[1]
+        if not model.cells_equiv(ca, cb):
+            return ('remove_formatting(None, %d, %d)' % (s_, e_), ca, cb)
+        ea, eb = model.closed_check(v[s_:e_]), model.closed_check(w[s_:e_])
+        if ea != eb:
+            return ('slicing [%d:%d] and appending' % (s_, e_), ea, eb)
+    return None
+
+
 def check_probe(h, which, pat, fmts, regex, match_case, count):
     bad = []
     v = build(h)
@@ -108,6 +133,13 @@ def check_probe(h, which, pat, fmts, regex, match_case, count):
             bad.append(('match-cells', '%s: %s (method) vs loop of apply/remove: %s' % (what, cv, model.first_diff(cv, cw))))
         elif not (v == w) or model.renderings(v) != model.renderings(w):
             bad.append(('match-state', '%s: same cells but a different state than the loop (== %r)' % (what, v == w)))
+        else:
+            # same cells, ==, renderings - but a different object graph (e.g. setting objects shared between matches).
+            # "The same state" includes the future: every one-step continuation must agree as well.
+            fut = future_diff(v, w)
+            if fut:
+                bad.append(('match-state-future', '%s: equal now, but after %s the method result has %s and the loop result %s'
+                            % ((what,) + fut)))
     # AnsiStr twin
     try:
         vs = AnsiStr(build(h))
